@@ -50,7 +50,10 @@ RULE_ADDED = (
               ' '
               'Round 13: after a reconnection, a locked device that takes the PIN but whose sig'
               'ner does not come up (still the bootloader, another app): the manager stops and '
-              'sends the PIN once. ')
+              'sends the PIN once. '
+              ' '
+              'Round 15: version components 127, 128, 200 in the grids; unlock-exchange faults '
+              'on SGX too. ')
 RULE = RULE + " " + RULE_ADDED.strip()
 ASSUMPTIONS = [
     "simulated device + fake transports trusted",
